@@ -58,6 +58,12 @@ func runC34(r *core.R) {
 		}
 		r.Count("booklet_configurations_accepted", 1)
 		class := fmt.Sprintf("n=%d,%s,multifolio=%v", c.n, map[model.BookletType]string{model.Booklet: "booklet", model.BookletAdvanced: "bookletadvanced", model.BookletPerfectBound: "perfectbound"}[nup.BookletType], nup.MultiFolio)
+		if nup.MultiFolio {
+			// the known multi-folio defects depend on whether a signature (4 x folio size pages) is a whole number
+			// of sheets (2N pages): keyed separately so that configurations that hold today stay guarded
+			whole := (4*nup.FolioSize)%(2*c.n) == 0
+			class += fmt.Sprintf(",signature-is-whole-sheets=%v", whole)
+		}
 		for k := 1; k <= maxPages; k++ {
 			for shape := 0; shape < 2; shape++ {
 				pages := types.IntSet{}
